@@ -316,6 +316,7 @@ func c11prop(r *simkit.Run) {
 		r.Fail(kind, format+fmt.Sprintf(" [codec %v, pool %s]", spec, model.encode()), args...)
 	}
 	directAdds := 0
+	callerReuses := rapid.Bool().Draw(rt, "caller-reuses-the-url-value-it-passed")
 	add := func(k string, w int) {
 		u := mustURL(universe[k])
 		if _, known := direct[k]; !known {
@@ -331,8 +332,12 @@ func c11prop(r *simkit.Run) {
 		if err != nil {
 			fail("upsert-failed", "UpsertServer(%s): %v", universe[k], err)
 		}
-		model.upsert(u, true, w)
+		model.upsert(mustURL(universe[k]), true, w)
 		note("upsert %s w=%d direct=%v", universe[k], w, direct[k])
+		// the URL value is the caller's: once the call has returned the caller may re-use it for something else
+		if callerReuses {
+			u.Scheme, u.Host, u.Path, u.RawPath, u.User = "ftp", "scribbled:1", "/scribbled", "", nil
+		}
 	}
 	add(keys[0], 1)
 	for _, k := range keys[1:] {
